@@ -234,6 +234,8 @@ pub fn catch<R>(f: impl FnOnce() -> R) -> Result<R, (String, String)> {
         }
         Err(_) => {
             let (loc, msg) = take_last_panic().unwrap_or(("?".into(), "?".into()));
+            // first line only: some error types append a captured backtrace
+            let msg = msg.lines().next().unwrap_or("").to_string();
             Err((short_loc(&loc), msg))
         }
     }
